@@ -1,5 +1,5 @@
 (** C12 — every strftime specifier renders the documented field.  Theorem-only file: each theorem
-    is closed by [exact] of a lemma of Proofs/C12.v / Proofs/C12Str.v and followed by
+    is closed by [exact] of a lemma of Proofs/C12*.v and followed by
     [Print Assumptions].
 
     Vocabulary.  The documentation table is Spec/StrftimeDoc.v ([doc_table], [tokens],
@@ -16,7 +16,7 @@
     r = RSkip (outside the property's domain) -> no claim. *)
 From Coq Require Import ZArith List Bool.
 From V Require Import Base.Int Base.IO Spec.StrftimeDoc Model.Items Gen.Strftime Model.Strftime Model.Format
-  Proofs.C12 Proofs.C12Str.
+  Proofs.C12 Proofs.C12Str Proofs.C12Tok Proofs.C12Fam.
 Import ListNotations.
 Open Scope Z_scope.
 
@@ -108,3 +108,43 @@ Theorem C12_strftime_terminates : forall s lenient,
   end.
 Proof. exact strftime_terminates. Qed.
 Print Assumptions C12_strftime_terminates.
+
+(** literal_copied: a format string without '%' (any valid UTF-8, including multi-byte text and
+    Unicode white space) is written out unchanged, whatever the value *)
+Theorem C12_literal_copied : forall a fmt, utf8_valid fmt = true -> ~ In 37 fmt ->
+  delayed_display a (sf_new fmt) = fok fmt.
+Proof. exact literal_copied. Qed.
+Print Assumptions C12_literal_copied.
+
+(** the documented family: valid UTF-8 in which every '%' starts a documented specifier, optionally
+    preceded by a padding modifier ([wf_scan] decides it).  Its item lists agree with the table:
+    arbitrary text in between, composites in place, and the [Error] item for a modifier on a
+    non-numeric or composite specifier *)
+Theorem C12_tokenization_documented_family : forall fmt,
+  documented_family fmt -> tokenization_agrees fmt.
+Proof. exact tokenization_documented_family. Qed.
+Print Assumptions C12_tokenization_documented_family.
+
+(** C12 on the documented family: every value x every format string built from the documented
+    specifiers and modifiers renders as documented, or fails exactly where the documentation says.
+    Partial only in its hypothesis [args_view]: that the packed date handed to the formatter reads
+    as the calendar date of its day number is C01's theorem (and, for DateTime values, that
+    [overflowing_naive_local] is the wall-clock reading is C04's); the gap between the op-level
+    value decoding and [args_view] is covered by the correspondence run, not by this theorem. *)
+Theorem C12_format_spec_family_partial : forall a sv fmt, args_view a sv -> documented_family fmt ->
+  claim (doc_format sv fmt) (delayed_display a (sf_new fmt)).
+Proof. exact format_spec_family. Qed.
+Print Assumptions C12_format_spec_family_partial.
+
+(** the hypotheses are inhabited: 2001-07-08T00:34:54 (leap second) +09:30, and a format string
+    with composites, modifiers, multi-byte text, %+ and %% *)
+Example C12_args_view_inhabited : args_view ex_args ex_sval.
+Proof. exact ex_args_view. Qed.
+Print Assumptions C12_args_view_inhabited.
+Example C12_family_inhabited : documented_family ex_fmt.
+Proof. exact ex_family. Qed.
+Print Assumptions C12_family_inhabited.
+Example C12_format_example : delayed_display ex_args (sf_new ex_fmt) =
+  match doc_format ex_sval ex_fmt with ROk s => fok s | _ => ferr end.
+Proof. exact ex_format. Qed.
+Print Assumptions C12_format_example.
